@@ -28,6 +28,8 @@ struct Tok {
 struct Chunk {
 	std::string t;
 	std::vector<Tok> toks;
+	std::string inc;     // for an include("...") item: the path of the file in the simulated tree it resolves to
+	bool faulty = false; // the item carries an injected fault (failing include target, wrong token ...)
 	json to_json() const;
 };
 
@@ -60,6 +62,8 @@ struct TextGen {
 	std::vector<std::string> include_targets; // if non-empty and schema declares include: sometimes emit include("target")
 	bool unique_titles = false;
 	int ctx_flags = 0;
+	bool skip_include = false; // never emit include() items
+	bool skip_funcs = false;   // never emit function calls
 };
 
 // Renders a valid text for the schema as a list of top-level item chunks.
